@@ -121,18 +121,19 @@ Open Scope N_scope.
     [C13_facts_of_data_agree]: for EVERY string the computed facts satisfy the agreement hypotheses
     -- QName split of element and attribute names (also through the xmlns alternative of the
     production attribute), PI target, PI data (storable, white space skipped), the pieces of an
-    attribute value against [DomL1.parse_attvalue] -- outside two decidable exclusions:
-    * D04 ([NameLanguage.KnownD04], the predicate of C18 / C02): a PI target, an entity reference
-      name, or the name of a reference inside an attribute value ([value_D04]) that is empty or
-      starts with a name character that cannot start a Name;
-    * [KnownRefLoose]: NOT a listed finding (defect candidate, see [C13_ref_loose_refuted]):
-      create_entity_reference only asks whether xml_parser::reference("&name;") succeeds and does
-      not look at the rest, so "a;b", "amp;x", "#65" pass the name test; the call then fails with
-      the error of the entity lookup where DOM Level 1 specifies INVALID_CHARACTER_ERR.
+    attribute value against [DomL1.parse_attvalue] -- outside one decidable exclusion, D04
+    ([NameLanguage.KnownD04], the predicate of C18 / C02): a PI target, an entity reference name, or
+    the name of a reference inside an attribute value ([value_D04]) that is empty or starts with a
+    name character that cannot start a Name.
+    (A second exclusion of the first version of these proofs was a defect they found: D64,
+    create_entity_reference only asked whether xml_parser::reference("&name;") succeeded, so "a;b",
+    "amp;x", "#65" passed the name test and the call failed with the error of the entity lookup
+    instead of INVALID_CHARACTER_ERR.  Repaired in /repo 37c72ae; Model/DomFacts.v follows the
+    repaired code, [C13_entref_name_checked].)
     [C13_step_refines_model_facts], [C13_step_refines_reachable_model_facts]: [C13_step_refines] and
     [C13_step_refines_reachable] WITHOUT the hypotheses [op_facts_agree] / [op_facts_ok], for calls
     and histories whose facts are the computed ones ([model_facts]) and that stay outside
-    [KnownFacts] (the two exclusions above, per operation); [C13_step_refines_strings]: every
+    [KnownFacts] (the exclusion above, per operation); [C13_step_refines_strings]: every
     operation, with the facts recomputed from its strings.
     NOT PROVED / ASSUMED: that the implementation's parser computes what its model computes -- the
     [prod] and [parse] correspondences (every production and the typed parse, real crates against
@@ -516,7 +517,7 @@ Print Assumptions C13_step_refines_partial_replace_document.
 Theorem C13_facts_of_name_agree : forall s,
   elem_name_agrees (facts_of_name s) /\ attr_name_agrees (facts_of_name s)
   /\ (NameLanguage.KnownD04 s = false -> pi_target_agrees (facts_of_name s))
-  /\ (NameLanguage.KnownD04 s = false -> KnownRefLoose s = false -> ref_name_agrees (facts_of_name s)).
+  /\ (NameLanguage.KnownD04 s = false -> ref_name_agrees (facts_of_name s)).
 Proof. exact facts_of_name_agree. Qed.
 
 Theorem C13_facts_of_data_agree : forall s,
@@ -540,29 +541,25 @@ Proof. exact value_any_attribute_name. Qed.
 Theorem C13_value_D04_c02 : forall s, XmlWFLexical.no_D04 s = true -> DomFactsData.value_D04 s = false.
 Proof. exact DomFactsC02.no_D04_value. Qed.
 
-(** the exclusions are needed.  D04: create_processing_instruction("1", ..) -- the model parser
-    returns the target 1, no PITarget.  A reference with a D04 name in an attribute value: "&1;".
-    NOT a listed finding: create_entity_reference("a;b") passes the name test (n_ref = true) although
-    "a;b" is no Name; on the implementation the call answers the error of the entity lookup
-    (err:info) where DOM Level 1 specifies INVALID_CHARACTER_ERR (likewise "#65", "amp;x"). *)
+(** the exclusion is needed.  D04: create_processing_instruction("1", ..) -- the model parser
+    returns the target 1, no PITarget.  A reference with a D04 name in an attribute value: "&1;". *)
 Theorem C13_name_D04_refuted : exists s, NameLanguage.KnownD04 s = true /\ ~ pi_target_agrees (facts_of_name s).
 Proof. exact name_D04_refuted. Qed.
 
 Theorem C13_value_D04_refuted : exists s, DomFactsData.value_D04 s = true /\ ~ value_facts_agree (facts_of_data s).
 Proof. exact value_D04_refuted. Qed.
 
-Theorem C13_ref_loose_refuted : exists s,
-  NameLanguage.KnownD04 s = false /\ KnownRefLoose s = true /\ ~ ref_name_agrees (facts_of_name s).
-Proof. exact ref_loose_refuted. Qed.
-
-(** the strings inside [KnownRefLoose]: "&s;" starts with a reference of the grammar (entity
-    reference, decimal or hexadecimal character reference) and s is not a run of name characters *)
-Theorem C13_ref_loose_shape : forall s, KnownRefLoose s = true <->
-  (exists x r, DisplayLex.reference_ok x /\ 38 :: s ++ [59] = DisplayLex.d_reference x ++ r) /\ forallb NameLanguage.NC s = false.
-Proof. exact ref_loose_shape. Qed.
+(** D64 (repaired in 37c72ae): create_entity_reference("a;b"), ("#65"), ("amp;x"), ("#x41;zz") do not pass
+    the name test; the model answers INVALID_CHARACTER_ERR as DOM Level 1 specifies, ("amp") passes *)
+Example C13_entref_name_checked :
+  map (fun s => n_ref (facts_of_name s)) [[97; 59; 98]; [35; 54; 53]; [97; 109; 112; 59; 120]; [35; 120; 52; 49; 59; 122; 122]; [97; 109; 112]]
+  = [false; false; false; false; true]
+  /\ snd (step ex_world (with_model_facts (CreateEntityReference (0, 1) (sname [97; 59; 98])))) = Failed InvalidCharacterErr
+  /\ snd (DomL1.dom_step (abs ex_world) (DomL1.ACreateEntityReference (0, 1) [97; 59; 98])) = DomL1.ARaised (DomL1.Dom DomCharData.InvalidCharacterErr).
+Proof. split; [exact entref_name_checked|]. split; vm_compute; reflexivity. Qed.
 
 (** [model_facts o]: the facts of [o] are the computed ones ([with_model_facts o = o]);
-    [KnownFacts o]: the D04 / [KnownRefLoose] exclusions for the strings of [o] that matter:
+    [KnownFacts o]: the D04 exclusion for the strings of [o] that matter:
     the target of create_processing_instruction, the name of create_entity_reference, the value
     of set_attribute / set_node_value *)
 Theorem C13_model_facts_agree : forall o, model_facts o -> KnownFacts o = false -> op_facts_agree o.
@@ -638,8 +635,6 @@ Print Assumptions C13_pi_data_any_target.
 Print Assumptions C13_value_any_attribute_name.
 Print Assumptions C13_name_D04_refuted.
 Print Assumptions C13_value_D04_refuted.
-Print Assumptions C13_ref_loose_refuted.
-Print Assumptions C13_ref_loose_shape.
 Print Assumptions C13_model_facts_agree.
 Print Assumptions C13_step_refines_model_facts.
 Print Assumptions C13_step_refines_reachable_model_facts.
